@@ -23,6 +23,8 @@ def dump(obj, eq=False, _depth=0, _seen=None):
     if isinstance(obj, datetime.datetime):
         if obj.tzinfo is not None:
             off = obj.utcoffset()
+            if eq:      # aware datetimes are equal when they denote the same instant (as datetime.__eq__ does)
+                return ('dt-aware', (obj - off).replace(tzinfo=None).isoformat())
             return ('dt-aware', (obj - off).replace(tzinfo=None).isoformat(), off.total_seconds())
         return ('dt-naive', obj.isoformat())
     if isinstance(obj, datetime.timedelta):
@@ -41,6 +43,17 @@ def dump(obj, eq=False, _depth=0, _seen=None):
         return ('type', obj.__module__, obj.__qualname__)
     if type(obj).__module__ in ('ipaddress', 'urllib3.util.url', 'decimal', 'fractions', 'uuid'):
         return ('val', type(obj).__qualname__, str(obj))
+    if type(obj).__module__.startswith('cryptodatahub.common.key') and hasattr(obj, 'der'):
+        # public keys / certificates wrap lazily-parsed asn1crypto structures: their identity is the DER encoding
+        try:
+            return ('der', type(obj).__qualname__, bytes(obj.der))
+        except Exception:  # noqa
+            pass
+    if type(obj).__module__.startswith('asn1crypto.'):
+        try:
+            return ('asn1', type(obj).__qualname__, bytes(obj.dump()))
+        except Exception:  # noqa
+            return ('asn1', type(obj).__qualname__, repr(obj))
     if attr.has(type(obj)):
         out = [type(obj).__qualname__]
         for f in attr.fields(type(obj)):
